@@ -75,6 +75,13 @@ FUNCS = [
     ("create_ack_packet", "builders.rs"),
 ]
 STRUCT_FILES = ["types.rs"]
+# return-value slices of methods outside srtla-protocol: (rust fn, path under the repo root, impl type).  `self` is
+# dropped: statements of the form `self.method(pure args);` (the receiver's own bookkeeping) are skipped and listed
+# in the generated comment, any other use of `self` is an error; fieldless enums of the file become Z constants.
+SLICE_FUNCS = [
+    ("process_registration_packet", "crates/srtla-core/src/registration/mod.rs", "SrtlaRegistrationManager"),
+]
+ENUMS = {}          # enum name -> [variants] (fieldless enums of the slice files), values are `Name_Variant : Z`
 
 UNS = {"u8": 8, "u16": 16, "u32": 32, "u64": 64, "usize": 64}
 INTS = dict(UNS, i32=32)
@@ -353,7 +360,7 @@ def norm_type(t, cx):
     m = re.match(r"Option<(.+)>$", t)
     if m:
         return "Option<%s>" % norm_type(m.group(1), cx)
-    if t in cx.structs:
+    if t in cx.structs or t in ENUMS:
         return t
     m = re.match(r"(?:SmallVec|Vec)<(\w+)(?:,[^>]*)?>$", t) or re.match(r"\[(\w+)\]$", t)
     if m and m.group(1) == "u8":
@@ -391,7 +398,7 @@ def ev_const(e, cx):
 
 
 def coq_type(t):
-    if t in INTS:
+    if t in INTS or t in ENUMS:
         return "Z"
     if t == "bool":
         return "bool"
@@ -467,6 +474,8 @@ class Cx:
         self.loop = None          # innermost enclosing loop: {"name", "inv", "state", "rec"}
         self.loops = []           # emitted Fixpoints (an inner loop before the loop that calls it)
         self.nloops = 0
+        self.slice_self = False   # return-value slice of a method: `self.m(..);` statements are dropped
+        self.dropped = []
         self.fuel_params = []     # coq names of the byte-slice parameters (fuel bound)
 
     def fresh(self, base=None):
@@ -528,6 +537,9 @@ def ev(e, env, cx, k):
         if base in cx.consts and base not in env:
             ty, val = cx.consts[base]
             return k(Val(base, ty, val))
+        parts = n.split("::")
+        if len(parts) >= 2 and parts[-2] in ENUMS and parts[-1] in ENUMS[parts[-2]]:
+            return k(Val("%s_%s" % (parts[-2], parts[-1]), parts[-2]))
         raise TErr("unknown identifier %s" % n)
     if kind == "index":
         if e[2][0] == "range":
@@ -1145,7 +1157,9 @@ def run(stmts, env, cx):
         e = s[1]
         if e[0] == "if":
             return run_if(e, rest, env, cx)
-        if e[0] in ("iflet", "match"):
+        if e[0] == "match":
+            return run_match(e, rest, env, cx)
+        if e[0] == "iflet":
             raise TErr("%s not supported" % e[0])
         if rest or cx.loop is not None:
             raise TErr("tail expression followed by statements")
@@ -1190,6 +1204,12 @@ def run(stmts, env, cx):
                 env2[dst] = Val(cn, dv.t if et != "?" else "Vec<%s>" % (v2.t or "?"))
                 return "(let %s := (%s ++ [%s]) in %s)" % (cn, dv.s, v2.s, run(rest, env2, cx))
             return ev(e[3][0], env, cx, kp)
+        if (cx.slice_self and e[0] == "call" and e[2] == ("var", "self") and pure(e[3], cx)
+                and "self" not in walk_vars(e[3], [])):
+            ev_list(e[3], env, cx, lambda vals: "")          # the arguments must be translatable (and cannot fail: pure)
+            if e[1] not in cx.dropped:
+                cx.dropped.append(e[1])
+            return run(rest, env, cx)
         raise TErr("expression statement not supported (possible side effect)")
     if k == "break":
         if cx.loop is None:
@@ -1234,6 +1254,57 @@ def ev_const_env(e, env, cx):
     except TErr:
         return None
     return out[0] if out and pure(e, cx) else None
+
+
+def run_match(e, rest, env, cx):
+    """match <Option<int>> { Some(CONST) => {..} .. None => {..} _ => {..} }: arms in order, `_` last"""
+    _, scrut, arms = e
+    bodies = [b for _, b in arms]
+    clash = set().union(*[declared(b) for b in bodies]) & set(env) if rest else set()
+    if clash:
+        raise TErr("match arm shadows %s" % sorted(clash))
+
+    def km(v):
+        if not (v.t and v.t.startswith("Option<") and v.t[7:-1] in INTS):
+            raise TErr("match on %s (only Option<integer>)" % v.t)
+        it = v.t[7:-1]
+        somes, none_arm, default = [], None, None
+        for idx, (pat, body) in enumerate(arms):
+            if default is not None:
+                raise TErr("match: an arm after `_`")
+            if pat == "_":
+                default = body
+                continue
+            if pat == "None":
+                if none_arm is not None:
+                    raise TErr("match: two None arms")
+                none_arm = body
+                continue
+            m = re.match(r"Some\((.+)\)$", pat)
+            if not m:
+                raise TErr("match pattern %s" % pat)
+            inner = m.group(1)
+            base = inner.split("::")[-1]
+            if re.match(r"(0x[0-9a-fA-F_]+|\d[\d_]*)(%s)?$" % _SUF, inner):
+                c, suf = parse_num(inner)
+                cv = typed(Val(str(c), suf, c), it, "match pattern")
+            elif base in cx.consts and base not in env:
+                ty, val = cx.consts[base]
+                cv = typed(Val(base, ty, val), it, "match pattern")
+            else:
+                raise TErr("match pattern %s (only Some(CONST), None, _)" % pat)
+            somes.append((cv, body))
+        if default is None:
+            raise TErr("match without a `_` arm")
+        y = cx.fresh()
+
+        def arm(body):
+            return run(list(body) + list(rest), env, cx)
+        chain = arm(default)
+        for cv, body in reversed(somes):
+            chain = "(if (%s =? %s) then %s else %s)" % (y, cv.s, arm(body), chain)
+        return "(match %s with Some %s => %s | None => %s end)" % (v.s, y, chain, arm(none_arm if none_arm is not None else default))
+    return ev(scrut, env, cx, km)
 
 
 def run_if(e, rest, env, cx):
@@ -1289,14 +1360,17 @@ def struct_decls(src):
     return out
 
 
-def translate(fn, src, structs, consts, registry, rel=""):
-    params, ret, body = find_fn(src, None, fn)
+def translate(fn, src, structs, consts, registry, rel="", impl=None):
+    params, ret, body = find_fn(src, impl, fn)
     cx = Cx(structs, consts, registry)
     cx.fn = fn
+    cx.slice_self = impl is not None
     toks = tokenize(body)
     cx.used |= {v for k, v in toks if k == "id"}
     env, sig, ptypes = {}, [], []
     for p in split_params(params):
+        if impl is not None and re.match(r"&\s*(mut\s+)?self$", p):
+            continue
         if ":" not in p or "self" in p.split(":")[0]:
             raise TErr("parameter %s" % p)
         nm, ty = [x.strip() for x in p.split(":", 1)]
@@ -1318,7 +1392,9 @@ def translate(fn, src, structs, consts, registry, rel=""):
     stmts = WP(toks).block_from_start()
     expr = run(stmts, env, cx)
     rty = "res (%s)" % (coq_type(cx.ret) if cx.ret else "unit")
-    doc = "(* %s :: fn %s(%s)%s *)" % (PROTO + rel, fn, " ".join(params.split()), (" -> " + ret) if ret else "")
+    doc = "(* %s :: fn %s(%s)%s *)" % (rel if impl else PROTO + rel, fn, " ".join(params.split()), (" -> " + ret) if ret else "")
+    if cx.dropped:
+        doc += "\n(* return-value slice: dropped `self.%s(..);` *)" % "(..);`, `self.".join(cx.dropped)
     text = "%s\n%sDefinition leaf_wire_%s %s : %s :=\n  %s.\n" % (doc, "".join(l + "\n" for l in cx.loops), fn,
                                                                 " ".join(sig), rty, expr)
     registry[fn] = {"ptypes": ptypes, "ret": cx.ret}
@@ -1362,6 +1438,25 @@ def main():
             defs.append(d)
             meta[name] = m
         except (TErr, IndexError, KeyError, ValueError, TypeError, RecursionError) as e:
+            failed[name] = "%s: %s" % (type(e).__name__, e)
+            defs.append("(* leaf_wire_%s: NOT TRANSLATED (%s) *)\n" % (fn, str(e).replace("*)", "* )").replace("(*", "( *")))
+    for fn, path, impl in SLICE_FUNCS:
+        name = "wire_" + fn
+        try:
+            src = strip_comments(open(os.path.join(REPO, path)).read())
+            edefs = []
+            for m in re.finditer(r"enum\s+(\w+)\s*\{([^{}()]*)\}", src):
+                vs = [x.strip() for x in m.group(2).split(",") if x.strip()]
+                if vs and all(re.match(r"[A-Z]\w*$", x) for x in vs) and m.group(1) not in ENUMS:
+                    ENUMS[m.group(1)] = vs
+                    edefs.append("(* %s :: enum %s *)\n%s" % (path, m.group(1), "".join(
+                        "Definition %s_%s : Z := %d.\n" % (m.group(1), x, i) for i, x in enumerate(vs))))
+            d, m = translate(fn, src, structs, consts, registry, path, impl)
+            m["file"] = path
+            defs.extend(edefs)
+            defs.append(d)
+            meta[name] = m
+        except (TErr, IndexError, KeyError, ValueError, TypeError, RecursionError, OSError) as e:
             failed[name] = "%s: %s" % (type(e).__name__, e)
             defs.append("(* leaf_wire_%s: NOT TRANSLATED (%s) *)\n" % (fn, str(e).replace("*)", "* )").replace("(*", "( *")))
     hdr = ("(* GENERATED by tools/gen_wire.py from the Rust sources under %s on every run. Do not edit. *)\n"
